@@ -292,7 +292,7 @@ def run(shard, tier, seed):
 
     @hypothesis.seed(env.subseed(seed, ID, shard["i"]))
     @settings(max_examples=n, deadline=None, database=None, suppress_health_check=list(hypothesis.HealthCheck), phases=[hypothesis.Phase.generate])
-    @given(st.randoms(use_true_random=False))
+    @given(st.randoms(use_true_random=True))
     def prop(rnd):
         u.simnet.install(rnd)
         case = one_case(u, rnd, res, M)
